@@ -477,7 +477,12 @@ retry_after_fb:
             if (bnv_cb(bn->get_version_ptr(), v_at_fb)) {
                 return status::WARN_ABORTED_BY_USER;
             }
-            key_tuple child_kt = right_to_left ? key_tuple::max() : key_tuple::min();
+            // The start cursor of the child layer is exclusive, so it must lie strictly
+            // outside every storable tuple: key_tuple::max() itself ({~0, 9}) is the tuple
+            // of a link entry whose slice is FF..FF and would be skipped right-to-left.
+            key_tuple child_kt = right_to_left
+                    ? key_tuple{~key_slice_type{0}, sizeof(key_slice_type) + 2}
+                    : key_tuple::min();
             auto child_border_node_and_v =
                 find_border(child, child_kt.get_key_slice(), child_kt.get_key_length(), check_status);
             border_node* target_border = std::get<0>(child_border_node_and_v);
